@@ -88,6 +88,16 @@ func (w *Walker) defaults(p capnp.Ptr, kind ref.Kind, lk ref.ListKind, count int
 	isDefList := func(l capnp.List) bool {
 		return l.IsValid() && l.Message() != p.Message() && l.Len() == 3 && capnp.UInt16List{List: l}.At(1) == 0xD1D1
 	}
+	// the untyped form: any valid pointer is kept, a null pointer becomes the default
+	if q, err := p.Default(defStruct); err != nil {
+		return pbt.Fail("default/ptr-error", "%s: Ptr.Default failed: %v", path, err)
+	} else if kind == ref.KNull {
+		if !isDefStruct(q.Struct()) {
+			return pbt.Fail("default/ptr-missing", "%s: Ptr.Default on a null pointer did not return the default", path)
+		}
+	} else if q.Message() != p.Message() || !capnp.SamePtr(q, p) || q.IsValid() != p.IsValid() {
+		return pbt.Fail("default/ptr-replaces-present-value", "%s: Ptr.Default replaced a pointer of kind %v that is present", path, kind)
+	}
 	s, err := p.StructDefault(defStruct)
 	if err != nil {
 		return pbt.Fail("default/struct-error", "%s: StructDefault failed: %v", path, err)
